@@ -27,7 +27,7 @@ type Case struct {
 }
 
 func genCase(t *rapid.T) Case {
-	g := &vx.GCfg{Depth: runlog.Pick(2, 3), Names: vx.Names, NoDollar: runlog.IsOpen("D27")}
+	g := &vx.GCfg{Depth: runlog.Pick(2, 3), Names: vx.Names, NoDollar: runlog.IsOpen("D27"), EnvExprs: true}
 	c := Case{Layers: []*vx.Node{g.GenRoot(t)}}
 	nl := rapid.IntRange(0, 2).Draw(t, "nlayers")
 	for i := 0; i < nl; i++ {
@@ -52,6 +52,28 @@ func genCase(t *rapid.T) Case {
 	}
 	for i, n := 0, rapid.IntRange(0, 3).Draw(t, "nres"); i < n; i++ {
 		c.Resolvers = append(c.Resolvers, g.GenResolver(t))
+	}
+	if rapid.IntRange(0, 7).Draw(t, "samename") == 0 {
+		// the same name computed in the own tree and in an Env config, both reached within one read: each
+		// reference is looked up in the tree the referencing setting lives in first
+		ref := func(n string) vx.Part { return vx.Part{IsVar: true, Name: []vx.Part{{Lit: n}}} }
+		env := g.GenEnv(t)
+		h := rapid.SampledFrom([]string{"e1", "both"}).Draw(t, "h")
+		env.Put("a", &vx.Node{K: "expr", Expr: []vx.Part{{Lit: rapid.SampledFrom([]string{"E", "env-", "9"}).Draw(t, "el")}, ref(rapid.SampledFrom([]string{"zz", "both", "e2", "r1"}).Draw(t, "er"))}})
+		env.Put(h, &vx.Node{K: "expr", Expr: []vx.Part{ref("a")}})
+		env.Put("zz", &vx.Node{K: "str", S: "z"})
+		if h != "both" {
+			env.Put("both", &vx.Node{K: "uint", U: 3})
+		}
+		c.Envs = append(c.Envs, env)
+		parts := []vx.Part{ref("a"), {Lit: ":"}, ref(h)}
+		if rapid.Bool().Draw(t, "rev") {
+			parts = []vx.Part{ref(h), {Lit: ":"}, ref("a")}
+		}
+		c.Layers[0].Put(rapid.SampledFrom([]string{"b", "c", "d"}).Draw(t, "k"), &vx.Node{K: "expr", Expr: parts})
+		if c.Layers[0].Get("a") == nil || rapid.Bool().Draw(t, "owna") {
+			c.Layers[0].Put("a", &vx.Node{K: "expr", Expr: []vx.Part{{Lit: "own"}, ref(rapid.SampledFrom([]string{"p", "b", "zz", "e2"}).Draw(t, "ar"))}})
+		}
 	}
 	return c
 }
@@ -269,7 +291,7 @@ func runCase(c Case, r *runlog.R) error {
 
 var subExpand = runlog.Register(&runlog.Sub[Case]{
 	Name: "expansion-model",
-	Rule: "own tree built by merging 1-3 layers (settings a-d, object o{x,y}, list l; later layers redefine settings), 0-3 Env configs, 0-3 resolvers; string leaves are rendered expression ASTs (literals incl. $ } : { , references, nested names, : :+ :? operators, escapes) over a pool of 16 names placed in the own tree, in Env configs, in resolvers, in several layers or nowhere. After every merge each setting is read through Unpack (interface{} field), the String getter and a child handle and compared with the reference evaluator (value, typed pass-through of single references, error for unresolved names, message of :?). Reads that re-enter a reference are left to C08. Non-trivial: a read resolves a name outside the first layer consulted, meets an operator with unset/empty left side, finds a name present in several layers, or happens after a later merge. Distinct: hash of the case.",
+	Rule: "own tree built by merging 1-3 layers (settings a-d, object o{x,y}, list l; later layers redefine settings), 0-3 Env configs (whose values may be expressions themselves, evaluated with the Env config as their own tree; one case in eight plants the same name computed in the own tree and in an Env config and reaches both in one read), 0-3 resolvers; string leaves are rendered expression ASTs (literals incl. $ } : { , references, nested names, : :+ :? operators, escapes) over a pool of 16 names placed in the own tree, in Env configs, in resolvers, in several layers or nowhere. After every merge each setting is read through Unpack (interface{} field), the String getter and a child handle and compared with the reference evaluator (value, typed pass-through of single references, error for unresolved names, message of :?). Reads that re-enter a reference are left to C08. Non-trivial: a read resolves a name outside the first layer consulted, meets an operator with unset/empty left side, finds a name present in several layers, or happens after a later merge. Distinct: hash of the case.",
 	Gen:  genCase,
 	Run:  runCase,
 })
